@@ -130,29 +130,35 @@ func (s *Server) serve(ctx context.Context, listener net.Listener, handler Modbu
 	}
 
 	s.listener = listener
+	verifPoint("serve.start", nil, 0)
 	l := onceCloseListener{Listener: listener}
 	defer l.Close()
 
 	for {
 		netConn, err := l.Accept()
 		if err != nil {
+			verifPoint("serve.ret", nil, 0)
 			if s.isShutdown.Load() {
 				return ErrServerClosed
 			}
 			return err
 		}
 
+		verifPoint("accept.ret", netConn, 0)
 		if s.OnAcceptConnFunc != nil {
 			if err := s.OnAcceptConnFunc(ctx, netConn.RemoteAddr(), uint64(s.activeConnectionCount.Load()+1)); err != nil {
 				if err := netConn.Close(); err != nil {
 					onErrorFunc(fmt.Errorf("connection.close error, err: %w", err))
 				}
+				verifPoint("accept.rejected", netConn, 0)
 				continue
 			}
 		}
 
+		verifPoint("ctx.check", netConn, 0)
 		select {
 		case <-ctx.Done():
+			verifPoint("serve.ret", netConn, 1)
 			return ErrServerClosed
 		default:
 		}
@@ -172,10 +178,13 @@ func (s *Server) serve(ctx context.Context, listener net.Listener, handler Modbu
 				if rec := recover(); rec != nil {
 					conn.onErrorFunc(fmt.Errorf("recovered panic in handler, %v", rec))
 				}
+				verifPoint("conn.exit", conn.conn, 0)
 				if err := conn.conn.Close(); err != nil {
 					conn.onErrorFunc(fmt.Errorf("failed to close handler connection, err: %w", err))
 				}
+				verifPoint("conn.closed", conn.conn, 0)
 				s.trackConn(c, false)
+				verifPoint("conn.untracked", conn.conn, 0)
 				if s.OnAcceptConnFunc != nil {
 					s.OnCloseConnFunc(ctx, conn.conn.RemoteAddr(), s.isShutdown.Load())
 				}
@@ -211,9 +220,11 @@ func (s *Server) trackConn(c *connection, isAdd bool) {
 	if isAdd {
 		s.activeConnections[c] = struct{}{}
 		s.activeConnectionCount.Add(1)
+		verifPoint("track.add", c.conn, s.activeConnectionCount.Load())
 	} else {
 		delete(s.activeConnections, c)
 		s.activeConnectionCount.Add(-1)
+		verifPoint("track.remove", c.conn, s.activeConnectionCount.Load())
 	}
 }
 
@@ -261,16 +272,21 @@ func (c *connection) handle(ctx context.Context) {
 			continue // nothing read and not idle yet
 		}
 
+		verifPoint("conn.read", conn, int64(n))
 		c.isBeingHandled.Store(true)
+		verifPoint("conn.mark", conn, 0)
 		toSend, closeConn := c.assembler.ReceiveRead(cCtx, received[0:n], n)
 		if toSend != nil {
 			_ = conn.SetWriteDeadline(time.Now().Add(wTimeout))
 			if _, err := conn.Write(toSend); err != nil {
+				verifPoint("conn.writefail", conn, 0)
 				c.onErrorFunc(err)
 				return // when write fails to client we close connection
 			}
+			verifPoint("conn.wrote", conn, int64(len(toSend)))
 		}
 		c.isBeingHandled.Store(false)
+		verifPoint("conn.unmark", conn, 0)
 		if closeConn {
 			return
 		}
@@ -291,27 +307,33 @@ func (s *Server) Shutdown(ctx context.Context) error {
 	s.mu.Lock()
 	defer s.mu.Unlock()
 	s.isShutdown.Store(true)
+	verifPoint("sd.start", nil, 0)
 
 	err := s.listener.Close()
+	verifPoint("sd.lisclosed", nil, 0)
 
 	timer := time.NewTimer(50 * time.Millisecond)
 	defer timer.Stop()
 	for {
 		allIdle := true
 		for c := range s.activeConnections {
+			verifPoint("sd.check", c.conn, 0)
 			if c.isBeingHandled.Load() {
 				allIdle = false
 				continue
 			}
+			verifPoint("sd.close", c.conn, 0)
 			(*c).conn.Close()
 			delete(s.activeConnections, c)
 		}
 		if allIdle {
+			verifPoint("sd.ret", nil, 0)
 			return err
 		}
 
 		select {
 		case <-ctx.Done():
+			verifPoint("sd.ret", nil, 1)
 			return ctx.Err()
 		case <-timer.C:
 			timer.Reset(50 * time.Millisecond)
